@@ -378,6 +378,37 @@ def piecewise(fn, F, pname, domain):
     return out
 
 
+
+def zip_xor_collect(fn, F):
+    """the returned vector when it is `a.iter().zip(b).map(|(x, y)| x ^ y).collect()`: [(base text, length text or None)]
+    for the two zipped slices (`index(base, RangeTo{n})` gives (base, n), a whole collection (base, None)); the element i
+    of the result is a[i] ^ b[i] for i below the shorter length.  None when the function is not of that form."""
+    from . import ctext as CT
+    rets = [v for _, v in returns(fn, F, True)]
+    if len(rets) != 1:
+        return None
+    try:
+        e = CT.parse(rets[0])
+    except CT.ParseError:
+        return None
+    if not (e[0] == 'call' and e[1] == 'collect' and len(e[2]) == 1):
+        return None
+    m = e[2][0]
+    if not (m[0] == 'call' and m[1] == 'map' and len(m[2]) == 2 and m[2][0][0] == 'call' and m[2][0][1] == 'zip' and len(m[2][0][2]) == 2):
+        return None
+    cl = [g for n, g in F.fns.items() if n.startswith(fn.name + '::{closure')]
+    if len(cl) != 1 or [v for _, v in returns(cl[0], F, True)] not in (['BitXor($_2.0, $_2.1)'], ['BitXor($_2.1, $_2.0)']):
+        return None
+    out = []
+    for side in m[2][0][2]:
+        while side[0] == 'call' and side[1] in ('iter', 'into_iter', 'copied', 'cloned') and len(side[2]) == 1:
+            side = side[2][0]
+        if side[0] == 'call' and side[1] == 'index' and len(side[2]) == 2 and side[2][1][0] == 'aggr' and side[2][1][1] == 'RangeTo::RangeTo':
+            out.append((CT.show(side[2][0]), CT.show(side[2][1][2][0])))
+        else:
+            out.append((CT.show(side), None))
+    return out
+
 def xor_rule(cx, rule, qual, pa, pb, lens):
     """byte-wise XOR helper: the returned vector consists of a[i] ^ b[i] for i = 0 .. n (one append per index, same index
     on both operands, nothing else appended)"""
@@ -397,4 +428,9 @@ def xor_rule(cx, rule, qual, pa, pb, lens):
         i = 'each(Range::Range{0, %s})' % n
         want += ['BitXor($%s[%s], $%s[%s])' % (pa, i, pb, i), 'BitXor($%s[%s], $%s[%s])' % (pb, i, pa, i)]
     ok = len(apps) == 1 and apps[0][0] in inloop and apps[0][1] in want
+    if not apps:
+        z = zip_xor_collect(fn, cx.F)
+        if z is not None:
+            # a[..n].iter().zip(&b[..n]).map(|(x, y)| x ^ y).collect(): both sides cut to the same n, equal indices paired
+            ok = sorted(x[0] for x in z) == sorted(['$' + pa, '$' + pb]) and z[0][1] is not None and z[0][1] == z[1][1] and z[0][1] in lens
     cx.add(rule, fn.short, ok, 'output byte i is %s[i] ^ %s[i] for every i below the length, one append per index: %s' % (pa, pb, [FR.short(x[1], 120) for x in apps]), fn.loc())
